@@ -167,3 +167,7 @@ def harness(cfg, B):
         r3 = s2.restart(r2[-1], B.const(1), stop={'maxit': M})
         _same(B, 'solve(N)+restart(M)=solve(N+M)', r3[-1], s2, fref, sref, P_.n)
         B.ob('restart-iteration-count-is-cumulative', 'true', B.boolean(s2.totnit() == N + M), meta={'totnit': s2.totnit()})
+        B.ob('returned-fields-carry-the-cumulative-count', 'true', B.boolean(r2[-1].it == N and r3[-1].it == N + M),
+             meta={'it_after_solve': r2[-1].it, 'it_after_restart': r3[-1].it})
+        r4 = s2.restart(r3[-1], B.const(1), stop={'maxit': 1})
+        B.ob('second-restart-count', 'true', B.boolean(s2.totnit() == N + M + 1 and r4[-1].it == N + M + 1), meta={'totnit': s2.totnit(), 'it': r4[-1].it})
